@@ -71,7 +71,24 @@ def run(ctx):
         ctx.extra["replay_sampled"] = len(vectors)
     vectors = vectors + longv
     chunks = [vectors[i::16] for i in range(16) if vectors[i::16]]
-    for res in ctx.harness_parallel("interp_replay.py", [{"vectors": c} for c in chunks], procs=16):
+    payloads = [{"vectors": c} for c in chunks]
+    # ---- histories of settings on one object (EphemSettings.tla) ------------------------------------------------------------
+    sconst = {"Orders": {2, 5, 6, 11}, "Queries": {3, 15, 28} if thorough else {3, 15}, "MaxLen": 5 if thorough else 4, "FreezeAtFirstUse": False}
+    n4, mc4, cl4 = tlcmod.wrap("EphemSettings", sconst, name="MCEphemSettings")
+    cfg4 = "SPECIFICATION Spec\n" + cl4 + "INVARIANT UsesCurrentSettings\nCHECK_DEADLOCK FALSE\n"
+    r4 = ctx.tlc(n4, label="settings histories (contract)", cfg_text=cfg4, extra_files={n4 + ".tla": mc4}, workers=8, dump=True, dump_only=["hist"])
+    sconst["FreezeAtFirstUse"] = True
+    n5, mc5, cl5 = tlcmod.wrap("EphemSettings", sconst, name="MCEphemSettingsFrozen")
+    r5 = ctx.tlc(n5, label="settings histories (deviation: frozen at first use)", cfg_text="SPECIFICATION Spec\n" + cl5 + "INVARIANT UsesCurrentSettings\nCHECK_DEADLOCK FALSE\n",
+                 extra_files={n5 + ".tla": mc5}, workers=8, expect_ok=False)
+    ctx.extra["deviation_frozen_settings_leaves_contract"] = r5.violated == "UsesCurrentSettings"
+    hists = [[list(a) for a in s["hist"]] for s in r4.dump if s["hist"] and s["hist"][-1][0] == "interp"]
+    hists = [h for h in hists if sum(1 for a in h if a[0] == "interp") >= 1 and any(a[0] != "interp" for a in h)]
+    if len(hists) > (6000 if thorough else 1500):
+        hists = rnd.sample(hists, 6000 if thorough else 1500)
+    behs = [{"hist": h, "degree": (4, 5, 9)[i % 3]} for i, h in enumerate(hists)]
+    payloads += [{"settings": behs[i::8]} for i in range(8) if behs[i::8]]
+    for res in ctx.harness_parallel("interp_replay.py", payloads, procs=16):
         ctx.absorb(res)
     ctx.exhaustive = thorough
     ctx.assumptions += [
